@@ -177,6 +177,12 @@ func Or(cs ...bool) bool {
 
 func Implies(a, b bool) bool { return !a || b }
 
+// Budget bounds the number of SSA instructions the rest of the path may
+// execute under the engine (a loop/recursion budget derived from the input
+// size); exceeding it is reported as non-termination and confirmed natively
+// under a watchdog.
+func Budget(steps int) {}
+
 // Thorough reports whether the check runs in the thorough tier (harnesses
 // pick their larger bounds with it).
 func Thorough() bool { return cur != nil && cur.Thorough }
